@@ -127,6 +127,8 @@ type rtTarget struct {
 	broken    chan struct{}
 	msgs      int
 	started   bool
+	stalled   bool          // a slow target: Send blocks until resumed
+	resumeCh  chan struct{}
 	// tracker model
 	ids       []int64 // proxy ids of accepted tasks in order
 	tasks     []*rtTask
@@ -155,6 +157,13 @@ func (t *rtTarget) Send(resp *adminservice.StreamWorkflowReplicationMessagesResp
 	case <-t.broken:
 		return io.EOF
 	default:
+	}
+	if t.stalled {
+		select {
+		case <-t.resumeCh:
+		case <-t.broken:
+			return io.EOF
+		}
 	}
 	t.msgs++
 	if t.onSend != nil {
@@ -191,6 +200,9 @@ type rtEnv struct {
 	logger    log.Logger
 	lateFrom  int  // targets with index >= lateFrom are connected by an explicit action
 	snapshotTasks bool
+	stallable     bool // the action alphabet includes stalling / resuming a target's Send
+	wmOnly        bool // restricted alphabet: sources emit watermark-only batches
+	identities    bool // tasks draw (namespace id, workflow id) from a 2x2 universe instead of being all distinct
 	spread        bool // restricted alphabet: tasks of a batch are spread round-robin over the targets
 	fullOnly      bool // restricted alphabet: a target acks after processing nothing or everything
 }
@@ -209,7 +221,8 @@ func (e *rtEnv) newTarget(j, inc int) *rtTarget {
 	ctx, cancel := context.WithCancel(context.Background())
 	return &rtTarget{env: e, idx: j, inc: inc, shard: history.ClusterShardID{ClusterID: rtTargetCluster, ShardID: int32(j + 1)},
 		ctx: ctx, cancel: cancel,
-		fromTgt: make(chan *adminservice.StreamWorkflowReplicationMessagesRequest, 8), broken: make(chan struct{})}
+		fromTgt: make(chan *adminservice.StreamWorkflowReplicationMessagesRequest, 8), broken: make(chan struct{}),
+		resumeCh: make(chan struct{})}
 }
 
 func (e *rtEnv) newSource(i int) *rtSource {
@@ -255,6 +268,15 @@ func (e *rtEnv) connectTarget(j int) {
 	e.senders[j], e.tgtShut[j] = e.startSender(t)
 }
 
+func (t *rtTarget) stall() { t.stalled = true }
+func (t *rtTarget) resume() {
+	if t.stalled {
+		t.stalled = false
+		close(t.resumeCh)
+		t.resumeCh = make(chan struct{})
+	}
+}
+
 // emitWatermarkAgain: the source's periodic sync (same or higher watermark).
 func (e *rtEnv) emitWatermarkAgain(s *rtSource) {
 	e.emitBatch(s, 0)
@@ -294,7 +316,11 @@ func (e *rtEnv) emitBatch(s *rtSource, n int) {
 		verifAssume(verifAnd(id > prev, id < 1<<40))
 		prev = id
 		var wf string
-		if e.spread {
+		ns := "ns"
+		if e.identities {
+			// tasks share namespace ids / workflow ids: 2 namespaces x 2 workflow ids
+			ns, wf = verifIdentity(verifChoose("identity", 4), e.nTgt)
+		} else if e.spread {
 			// restricted alphabet: the k-th task of a batch goes to target k mod nTgt
 			wf = verifWorkflowIDForShard(e.nextWF, k%e.nTgt+1, e.nTgt)
 		} else {
@@ -303,7 +329,7 @@ func (e *rtEnv) emitBatch(s *rtSource, n int) {
 		e.nextWF++
 		obj := &replicationv1.ReplicationTask{
 			SourceTaskId: id,
-			RawTaskInfo:  &persistencespb.ReplicationTaskInfo{NamespaceId: "ns", WorkflowId: wf, TaskId: id},
+			RawTaskInfo:  &persistencespb.ReplicationTaskInfo{NamespaceId: ns, WorkflowId: wf, TaskId: id},
 		}
 		rec := &rtTask{orig: id, obj: obj, source: s.idx}
 		if e.snapshotTasks {
